@@ -334,9 +334,42 @@ def dns_wire_abstract(m: dict) -> bytes:
         b.rr(1, name, 99, 1, 300, b"\x01\x02")
     elif rr == "https":
         b.rr(1, name, 65, 1, 300, b"\x00\x01\x00\x00\x01\x00\x03\x02h2")
+    elif rr == "https_hi":
+        b.rr(1, name, 65, 1, 300, b"\x80\x00\x00\x00\x01\x00\x03\x02h2")  # SvcPriority 0x8000
     elif rr == "opt":
         b.rr(3, (), 41, 1232, 0, b"")
     return b.bytes()
+
+
+BOUNDS16 = (0, 1, 0x7FFF, 0x8000, 0xFFFF)
+BOUNDS32 = (0, 1, 2 ** 31 - 1, 2 ** 31, 2 ** 32 - 1)
+
+
+def dns_boundary_cases():
+    """Deterministic messages with boundary values in every integer field the DNS view shows: ttl, HTTPS/SVCB
+    SvcPriority (with / without parameters, port parameter), MX preference, SRV priority/weight/port, SOA counters."""
+    from vf import dnsref as R
+
+    tgt = R.wire_name([b"svc", b"example"])
+    out = []
+
+    def msg(rtype, rdata, ttl=300):
+        return R.Builder(id=9, flags=R.flags(qr=1, rd=1, ra=1)).question((b"example", b"com"), rtype if rtype < 65280 else 255, 1) \
+            .rr(1, (b"example", b"com"), rtype, 1, ttl, rdata).bytes()
+
+    for v in BOUNDS16:
+        pv = struct.pack("!H", v)
+        out.append(("https_prio_%d" % v, msg(65, pv + tgt)))
+        out.append(("https_prio_params_%d" % v, msg(65, pv + tgt + struct.pack("!HH", 1, 3) + b"\x02h2" + struct.pack("!HH", 3, 2) + pv)))
+        out.append(("https_prio_root_%d" % v, msg(65, pv + b"\x00")))
+        out.append(("svcb_prio_%d" % v, msg(64, pv + tgt)))
+        out.append(("mx_pref_%d" % v, msg(15, pv + tgt)))
+        out.append(("srv_%d" % v, msg(33, pv + pv + pv + tgt)))
+    for v in BOUNDS32:
+        out.append(("ttl_%d" % v, msg(1, b"\x01\x02\x03\x04", ttl=v)))
+        out.append(("ttl_txt_%d" % v, msg(16, b"\x02hi", ttl=v)))
+        out.append(("soa_%d" % v, msg(6, tgt + tgt + struct.pack("!IIIII", v, v, v, v, v))))
+    return out
 
 
 YAML_TRICKY = [b"yes", b"no", b"true", b"null", b"~", b"123", b"1e3", b"0x1F", b"0o7", b".inf", b"-", b"a: b", b"a #b",
@@ -384,7 +417,7 @@ def random_dns(rng: random.Random) -> bytes:
         b.counts[0] += 1
     for _ in range(rng.choice([0, 1, 1, 2, 3, 4])):
         sec = rng.choice([1, 1, 1, 2, 3])
-        t = rng.choice([1, 28, 2, 5, 12, 15, 6, 16, 16, 16, 33, 65, 41, 99, 0, 65535])
+        t = rng.choice([1, 28, 2, 5, 12, 15, 6, 16, 16, 16, 33, 65, 65, 64, 41, 99, 0, 65535])
         if t == 1:
             rd = bytes(rng.randrange(256) for _ in range(rng.choice([4, 4, 4, 3, 5, 0])))
         elif t == 28:
@@ -392,9 +425,9 @@ def random_dns(rng: random.Random) -> bytes:
         elif t in (2, 5, 12):
             rd = R.wire_name(name()) if rng.random() < 0.8 else rng.choice([b"\x05ab", b"", b"\x00\x00", b"\x01a"])
         elif t == 15:
-            rd = struct.pack("!H", rng.randrange(100)) + R.wire_name(name())
+            rd = struct.pack("!H", rng.choice(BOUNDS16 + (10, 100))) + R.wire_name(name())
         elif t == 6:
-            rd = R.wire_name(name()) + R.wire_name(name()) + struct.pack("!IIIII", 1, 2, 3, 4, 5)
+            rd = R.wire_name(name()) + R.wire_name(name()) + struct.pack("!IIIII", *[rng.choice(BOUNDS32 + (5,)) for _ in range(5)])
         elif t == 16:
             k = rng.random()
             if k < 0.5:
@@ -406,9 +439,9 @@ def random_dns(rng: random.Random) -> bytes:
                 s = rng.choice(YAML_TRICKY) + rng.choice(YAML_TRICKY)
                 rd = s
         elif t == 33:
-            rd = struct.pack("!HHH", 1, 2, 443) + R.wire_name(name())
-        elif t == 65:
-            rd = struct.pack("!H", rng.choice([0, 1, 65535])) + R.wire_name(name()[:2]) + \
+            rd = struct.pack("!HHH", rng.choice(BOUNDS16), rng.choice(BOUNDS16), rng.choice(BOUNDS16 + (443,))) + R.wire_name(name())
+        elif t in (64, 65):
+            rd = struct.pack("!H", rng.choice(BOUNDS16 + (40000,))) + R.wire_name(name()[:2]) + \
                 (struct.pack("!HH", 1, 3) + b"\x02h2" if rng.random() < 0.6 else b"") + \
                 (struct.pack("!HH", rng.choice([3, 5, 7, 9999]), 2) + bytes(rng.randrange(256) for _ in range(2)) if rng.random() < 0.5 else b"") + \
                 (b"\x00" if rng.random() < 0.1 else b"")
@@ -430,8 +463,8 @@ def dns_roundtrip(wire: bytes, transport: str, how: str = "explicit", inctl: boo
     from vf import dnsref as R
 
     tctx()
-    ev = {"k": "dns_rt", "transport": transport, "valid": False, "rendered": False, "reenc": "skipped", "exc": "",
-          "hdr_o": [], "hdr_r": [], "q_o": [], "q_r": [], "rr_o": [], "rr_r": []}
+    ev = {"k": "dns_rt", "transport": transport, "valid": False, "rendered": False, "dotted": False, "reenc": "skipped",
+          "exc": "", "hdr_o": [], "hdr_r": [], "q_o": [], "q_r": [], "rr_o": [], "rr_r": []}
     vn = "dns" if how == "explicit" else "auto"
     if transport == "udp":
         msg, f = make_message("udp", wire, extra={"port": 53})
@@ -453,6 +486,7 @@ def dns_roundtrip(wire: bytes, transport: str, how: str = "explicit", inctl: boo
     rev, res = render(msg, f, vn, None, mode=how, req=vn, kind=transport, content="present", inctl=inctl)
     orig = R.try_decode(wire)
     ev["valid"] = orig is not None
+    ev["dotted"] = orig is not None and _has_dotted_label(orig, wire)
     if res is None:
         return [rev, ev]
     ok = (res.view_name or "").lower() == "dns" and rev["via"] == "view"
@@ -499,15 +533,50 @@ def dns_roundtrip(wire: bytes, transport: str, how: str = "explicit", inctl: boo
     return [rev, ev]
 
 
+def _has_dotted_label(m, wire: bytes) -> bool:
+    """Input feature (signature only): some label of the message -- owner and question names, names inside the RDATA of
+    name-bearing types, the TargetName of SVCB/HTTPS -- contains a '.' (cannot be written in the dotted text form)."""
+    from vf import dnsref as R
+
+    names = [n for n, _t, _c in m.questions] + [r.name for r in m.records()]
+    if any(b"." in bytes(l) for n in names for l in n):
+        return True
+    for r in m.records():
+        if r.type in (64, 65) and len(r.rdata) > 2:
+            try:
+                labels, _ = R.read_name(r.rdata, 2)
+            except Exception:
+                continue
+            if any(b"." in bytes(l) for l in labels):
+                return True
+        elif r.canon is not None and R.has_names(r.type):
+            c, pos = r.canon, 0  # canonical form: per layout field a tag byte, then N<wire name> | I<n bytes> | S<str> | R<rest>
+            for kind in R.LAYOUTS[r.type]:
+                pos += 1
+                if kind == "name":
+                    while c[pos]:
+                        if b"." in c[pos + 1: pos + 1 + c[pos]]:
+                            return True
+                        pos += 1 + c[pos]
+                    pos += 1
+                elif kind == "str":
+                    pos += 1 + c[pos]
+                elif kind == "rest":
+                    break
+                else:
+                    pos += {"u8": 1, "u16": 2, "u32": 4}[kind]
+    return False
+
+
 def abstract_dns(ev: dict) -> dict:
     """drift view of a dns_rt record: interned ids are not comparable between model and run, equalities are"""
     return {"k": "dns_rt", "transport": ev["transport"], "valid": ev["valid"], "rendered": ev["rendered"],
-            "reenc": ev["reenc"], "hdr_same": ev["hdr_o"] == ev["hdr_r"], "q_same": ev["q_o"] == ev["q_r"],
+            "dotted": ev["dotted"], "reenc": ev["reenc"], "hdr_same": ev["hdr_o"] == ev["hdr_r"], "q_same": ev["q_o"] == ev["q_r"],
             "rr_same": ev["rr_o"] == ev["rr_r"]}
 
 
 # ---- watchdog: a call that does not come back within NO_RETURN_S seconds is reported as raised = "NoReturn" -------------
-NO_RETURN_S = 12.0
+NO_RETURN_S = 30.0
 
 
 class _NoReturn(BaseException):
@@ -670,8 +739,8 @@ class Check(core.PropertyCheck):
         regs = stub_registries(tier)
         quick = tier == "quick"
         dns = [{"z": z, "q": q, "rr": rr} for z in (0, 2) for q in (("plain", "dot") if quick else ("plain", "dot", "ctl", "upper", "none"))
-               for rr in (("none", "a", "txt", "txt_bad", "cname", "cname_bad", "https") if quick else
-                          ("none", "a", "txt", "txt_bad", "cname", "cname_bad", "generic", "https", "opt"))]
+               for rr in (("none", "a", "txt", "txt_bad", "cname", "cname_bad", "https", "https_hi") if quick else
+                          ("none", "a", "txt", "txt_bad", "cname", "cname_bad", "generic", "https", "https_hi", "opt"))]
         real = [{"id": n, "mode": m, "out": o} for (n, m, o) in (self.real_cases or [])]
         return {"StubRegs": frozenset(tuple(_FD(d) for d in r) for r in regs),
                 "RealCases": frozenset(_FD(r) for r in real),
@@ -729,6 +798,9 @@ class Check(core.PropertyCheck):
                 yield core.Scenario({"kind": "entry", "entry": ei, "c": c, "v": rng.randrange(100), "view": "auto"}, source="suite")
         for _ in range(n_real):
             yield core.Scenario({"kind": "fuzz", "seed": rng.randrange(1 << 30)}, source="random")
+        for i, (_name, _w) in enumerate(dns_boundary_cases()):   # boundary values of every integer field, all transports
+            for tr in ("udp", "tcp", "dnsmsg"):
+                yield core.Scenario({"kind": "dnsb", "case": i, "transport": tr}, source="suite")
         for _ in range(1500 if ctx.quick else 20000):
             yield core.Scenario({"kind": "dnsfuzz", "seed": rng.randrange(1 << 30)}, source="random")
 
@@ -755,6 +827,8 @@ class Check(core.PropertyCheck):
                                "out": None, "entry": sc["entry"], "c": sc["c"], "v": sc["v"], "extra_variants": True})
         if k == "dns":
             return dns_roundtrip(dns_wire_abstract(sc["m"]), sc["transport"], inctl=sc["m"]["q"] == "ctl")
+        if k == "dnsb":
+            return dns_roundtrip(dns_boundary_cases()[sc["case"]][1], sc["transport"])
         if k == "dnsfuzz":
             return self._dnsfuzz(sc["seed"])
         return self._fuzz(sc["seed"])
